@@ -71,6 +71,9 @@ func c09Scenarios(cfg runCfg) []Scenario {
 	if cfg.shard == 6 || cfg.shard == 9 {
 		out = append(out, Scenario{Family: "deadline", Seed: mix(cfg.seed, 9, 6, uint64(cfg.shard)), K: 2})
 	}
+	if cfg.shard == 12 || cfg.shard == 15 {
+		out = append(out, Scenario{Family: "deadline", Seed: mix(cfg.seed, 9, 7, uint64(cfg.shard)), K: 3})
+	}
 	return out
 }
 
@@ -349,10 +352,30 @@ func c09Run(t *testing.T, sc Scenario, res *Result) {
 			// a test deadline that is nearer than the (default, 30 s) minimisation time limit, and a fast property that never fails
 			cmd = exec.Command(self, "-test.run", "^TestDeadlineChild$", "-test.timeout", "25s", "-test.v", "-rapid.checks", "50")
 		}
+		if sc.K == 3 {
+			// the falsifying test case is slow and ends close to the test deadline: it is still a falsification
+			cmd = exec.Command(self, "-test.run", "^TestDeadlineChild$", "-test.timeout", "6s", "-test.v", "-rapid.checks", "50", "-rapid.nofailfile")
+		}
 		cmd.Env = append(os.Environ(), fmt.Sprintf("C09_DEADLINE_MODE=%d", sc.K))
 		began := time.Now()
 		out, _ := cmd.CombinedOutput()
 		text := string(out)
+		if sc.K == 3 {
+			res.inc("checks_run")
+			res.inc("family:deadline")
+			res.nontrivial("deadline/3")
+			switch {
+			case strings.Contains(text, "test timed out"):
+				res.inconclusive("deadline child (mode 3) hit the go test timeout")
+			case !strings.Contains(text, "DEADLINE-CHILD-RAN"):
+				res.inconclusive("deadline child did not run: " + clip(text, 200))
+			case !strings.Contains(text, "--- FAIL: TestDeadlineChild") || !strings.Contains(text, "slow case falsified"):
+				res.violate(sc, "c09/deadline-slow-failure", "a test case that took long and falsified the property close to the test deadline was not reported: "+clip(text, 500), nil)
+			default:
+				res.inc("deadline_slow_failure_reported")
+			}
+			return
+		}
 		if sc.K == 2 {
 			res.inc("checks_run")
 			res.inc("family:deadline")
@@ -816,6 +839,19 @@ func TestDeadlineChild(t *testing.T) {
 	}
 	fmt.Println("DEADLINE-CHILD-RAN")
 	calls := 0
+	if mode == "3" {
+		rapid.Check(t, func(rt *rapid.T) {
+			calls++
+			rapid.Uint8().Draw(rt, "v")
+			if calls == 3 {
+				time.Sleep(4 * time.Second)
+			}
+			if calls >= 3 {
+				rt.Fatalf("slow case falsified")
+			}
+		})
+		return
+	}
 	if mode == "2" {
 		rapid.Check(t, func(rt *rapid.T) {
 			calls++
